@@ -2,6 +2,7 @@ package spec
 
 import (
 	"go/ast"
+	"sort"
 	"strings"
 
 	"lndlint/internal/an"
@@ -104,6 +105,34 @@ func runC07(r *an.Run) {
 				}
 				if len(conds) != 2 {
 					o.FailAt(f.ID+"#ok-tests", f.Where(f.Body.Pos()), "expected two tests of a lookup result, found %d", len(conds))
+				}
+				// polarity: the insertion needs "found" from the first lookup and
+				// "not yet closing" from the second
+				var condV []*an.FlowVertex
+				for _, v := range g.V {
+					if v.Kind.String() == "cond" {
+						if id, isId := v.Node.(*ast.Ident); isId && id.Name == "ok" {
+							condV = append(condV, v)
+						}
+					}
+				}
+				sort.Slice(condV, func(i, j int) bool { return condV[i].Node.Pos() < condV[j].Node.Pos() })
+				if len(condV) == 2 {
+					for i, need := range []struct {
+						kind string
+						what string
+					}{{"true", "the circuit was found"}, {"false", "the circuit is not closing yet"}} {
+						cut := an.FlowEdgeSet{}
+						for _, e := range condV[i].Out {
+							if (need.kind == "true") == (e.Kind == 1) { // flow.ETrue
+								cut[e] = true
+							}
+						}
+						o.Site("%s: lookup %d must answer %s for the insertion", name, i+1, need.kind)
+						if g.Reach(g.Entry, cut, nil)[ins[0].V] {
+							o.FailAt(f.ID+"#polarity-"+need.kind, f.Where(condV[i].Node.Pos()), "%s marks the circuit closing although not: %s", name, need.what)
+						}
+					}
 				}
 			}
 			w := r.Wide()
